@@ -336,6 +336,15 @@ def build_graph(F, g):
             objs[i] = []
         elif nd[0] == "dict":
             objs[i] = {}
+    # keyed containers as graph nodes (so that they can be part of a cycle): their items are Keyed
+    # instance nodes, which need their (scalar) key before the container is created
+    for i, nd in enumerate(nodes):
+        if nd[0] == "inst" and nd[1] == "Keyed" and nd[2].get("k", ["unset"])[0] not in ("unset", "n", "methof"):
+            object.__getattribute__(objs[i], "__dict__")["k"] = F.build(nd[2]["k"])
+    for i, nd in enumerate(nodes):
+        if nd[0] in ("klist", "kset"):
+            cls = F.ns["KeyedList" if nd[0] == "klist" else "KeyedSet"][F.classes["Keyed"], str]
+            objs[i] = cls([objs[r[1]] for r in nd[1]])
 
     def ref(r):
         if r[0] == "n":
@@ -952,6 +961,15 @@ def repr_graphs(rng, fam):
         for kc in ("klist", "kset"):
             out.append(dict(g(pad([[kc, [{"k": ["str", "a"], "drop_k": True}, {"k": ["str", "b"], "b0": ["int", 2]}]]] + tail)), must=True))
             out.append(dict(g(pad([["list", [[kc, [{"k": ["str", "a"], "drop_k": True}]]]]] + tail)), must=True))
+        # self-referential keyed containers (python-side oracle): an item whose attribute holds the
+        # KeyedSet / KeyedList that contains it; a holder whose keyed container holds an item that
+        # points back to the holder; a keyed container reached again through a plain list
+        for kc in ("kset", "klist"):
+            out.append(dict(g(pad([["n", 1]] + tail), [[kc, [["n", 2]]], ["inst", "Keyed", {"k": ["str", "c"], "b0": ["n", 1]}]]), must=True))
+            out.append(dict(g(pad([["n", 1]] + tail), [[kc, [["n", 2], ["n", 3]]], ["inst", "Keyed", {"k": ["str", "c"], "b0": ["n", 0]}],
+                                                       ["inst", "Keyed", {"k": ["str", "d"]}]]), must=True))
+            out.append(dict(g(pad([["n", 1]] + tail), [["list", [["n", 2], ["int", 1]]], [kc, [["n", 3]]],
+                                                       ["inst", "Keyed", {"k": ["str", "c"], "b0": ["n", 1]}]]), must=True))
         # x.a = x
         out.append(g(pad([["n", 0]] + tail)))
         # x.a = [x]; x.a = (x,) ; x.a = {"k": x}
